@@ -17,7 +17,8 @@ import time
 import vlib
 
 PROP_FILE = "Properties/C10_conn.v"
-# the signature of the open finding F-CONN-1 (the sampling loop misses CONNECTING when the re-dial is faster than the goroutine)
+# the signature of finding F-CONN-1 (the sampling loop missed CONNECTING when the re-dial was faster than the goroutine;
+# fixed by /repo ac94f55 - a fixed finding excuses nothing, so this signature is a VIOLATION like any other)
 FAST = "c10_conn_survived_fast_redial"
 
 
@@ -102,8 +103,8 @@ def _run(ctx, exe, mcheck, args, tag, timeout=900):
 
 
 def _judge(ctx, res, how):
-    """SPECVIOLs become violations with the scenario as replay (F-CONN-1's shape is excused while the finding is open);
-    MISMATCHes: the model and the real manager disagree"""
+    """SPECVIOLs become violations with the scenario as replay (only an OPEN finding with the same signature excuses one;
+    there is none); MISMATCHes: the model and the real manager disagree"""
     by_sig = {}
     for v in res["specviols"]:
         by_sig.setdefault(v["signature"], []).append(v)
@@ -249,7 +250,6 @@ def _run_real(ctx, big):
         "actions": {k[len("act."):]: v for k, v in sorted(st.items()) if k.startswith("act.")},
         "distinct_action_timings": st.get("distinct", 0),
         "phases_timed_out": st.get("phase_timed_out", 0),
-        "replayed_with_connecting_not_read": st.get("replay_with_connecting_not_read", 0),
         "model_impl_mismatches": st.get("mismatches", 0),
         "contract_failures_on_impl": st.get("specviol", 0),
         "excused_by_open_finding": excused,
@@ -257,14 +257,14 @@ def _run_real(ctx, big):
         "wall_s": res["wall_s"],
     }
     if big:
-        # many managers re-dialling at once: how often the sampling loop misses CONNECTING (finding F-CONN-1)
+        # many managers re-dialling at once: the regression scenario of finding F-CONN-1 (fixed: must be 0)
         sargs = ["-seed", ctx.seed, "-n", 100, "-only", "restart_at_once"]
         show = "harness/cmd/conn %s | ocaml/conn_check.ml" % " ".join(str(a) for a in sargs)
         sres = _run(ctx, exe, mcheck, sargs, "stress")
         sex = _judge(ctx, sres, show)
         cov["many_managers_at_once"] = {
             "cmd": show, "scenario_runs": sres["stats"].get("conn.scen", 0),
-            "connection_survived_fast_redial (F-CONN-1)": sres["stats"].get("viol:" + FAST, 0),
+            "connection_survived_fast_redial (F-CONN-1, fixed: must be 0)": sres["stats"].get("viol:" + FAST, 0),
             "other_contract_failures": sres["stats"].get("specviol", 0) - sres["stats"].get("viol:" + FAST, 0),
             "model_impl_mismatches": sres["stats"].get("mismatches", 0), "excused_by_open_finding": sex,
             "wall_s": sres["wall_s"],
